@@ -169,7 +169,8 @@ def cls (s : CS) : Nat :=
     match s.ro.phase, s.ro.reason with
     | .healthy, _ =>
       if w.inProgressAnno then (if w.generation = w.observedGeneration then 2 else 1)
-      else if s.br.isNone && (match s.ro.sub with | some sub => sub.state != .paused | none => false) then 40 else 0
+      else if s.br.isNone && (match s.ro.sub with | some sub => sub.state != .paused | none => false) &&
+              csObserve s.ro (roWl w) == s.ro then 40 else 0
     | .progressing, .initializing => if s.ro.condAge = .fresh then 0 else 4
     | .progressing, .inRolling =>
       (match s.ro.sub with
@@ -224,12 +225,13 @@ def cls (s : CS) : Nat :=
              (if brSync b w && brInit b w && b.st.batchState == .ready && RV.Oracle.Executor.batchReadyNow (exBr b) (some (exWl w)) && isPartitioned' b then 24 else 0)
            else if b.st.phase == .finalizing then
              (if b.st.updated == w.updated && b.st.updatedReady == w.updatedReady && b.generation == b.observedGeneration &&
-                 b.hasFinalizer && !b.deleting && b.policy == "WaitResume" then 25 else 0)
+                 b.hasFinalizer && !b.deleting && b.policy == "WaitResume" && b.st.hash != .empty &&
+                 b.observedRolloutID == b.rolloutID then 25 else 0)
            else if b.st.phase == .completed then (if !b.deleting && b.hasFinalizer then 26 else 0) else 0
          | .releaseWorkloadControl, some b => if b.st.phase == .completed && !b.deleting && b.hasFinalizer then 27 else 0
          | .releaseWorkloadControl, none => 29
          | _, _ => 0)
-    | .progressing, .completed => if s.br.isNone then 30 else 0
+    | .progressing, .completed => if s.br.isNone && s.ro.sub.isSome then 30 else 0
     | _, _ => 0
 where
   isPartitioned' (b : CBr) : Bool := match b.partition with | some p => decide (p ≤ b.st.currentBatch) | none => false
